@@ -63,6 +63,12 @@ func (ref Reference) CompletionAtPos(ctx context.Context, pos hcl.Pos) []lang.Ca
 		return candidates
 	}
 
+	if pos.Byte < ref.expr.Range().Start.Byte {
+		// The position is in front of the expression
+		// (e.g. right after the equals sign)
+		return []lang.Candidate{}
+	}
+
 	var editRng, prefixRng hcl.Range
 	switch eType := ref.expr.(type) {
 	case *hclsyntax.ScopeTraversalExpr:
